@@ -405,7 +405,10 @@ class BaseGroupBy(ABC):
         "Number each item in each group from 0 to the length of that group - 1"
     )
     def cumcount(self) -> pd.Series:
-        return self._grouper.cumcount(self._obj)
+        # numbering of the rows does not depend on the values
+        result = self._grouper.cumcount()
+        result.index = self._obj.index
+        return result
 
     def ema(
         self,
